@@ -3,6 +3,8 @@
 //! `N <s|m> <len> <w> <h> <color>`                         ImageView{,Mut}::new
 //! `W <s|m> <len> <pitch> <w> <h> <color>`                 new_with (+ rows)
 //! `C <s|m> <len> <pitch> <w> <h> <color> <ox> <oy> <cw> <ch>`   new_with, then cropped (+ rows)
+//! `D <s|m> <len> <pitch> <w> <h> <color> <ox> <oy> <cw> <ch> <ox2> <oy2> <cw2> <ch2>`   new_with, cropped, cropped again
+//!                                                         (tie of `C20.crop_crop`: chains of crops, padded parents)
 use crate::common::*;
 use dds::*;
 
@@ -120,6 +122,31 @@ pub fn gen(seed: u64, thorough: bool) -> Vec<String> {
                 }
             }
         }
+    }
+    // chains of two crops over addressable (often padded) parents; one in ten second crops leaves the first crop
+    let cols = colors();
+    for _ in 0..n / 10 {
+        let kind = if rng.chance(1, 2) { "s" } else { "m" };
+        let color = rng.below(cols.len() as u64) as usize;
+        let bpp = cols[color].bytes_per_pixel() as u64;
+        let (w, h) = (rng.range(1, 40), rng.range(1, 40));
+        let pitch = w * bpp + if rng.chance(1, 3) { 0 } else { rng.range(1, 9) };
+        let len = pitch * (h - 1) + w * bpp;
+        let inside = |rng: &mut Rng, dim: u64| -> (u64, u64) {
+            match rng.below(4) {
+                0 => (0, dim),
+                1 => { let o = rng.below(dim); (o, dim - o) }
+                _ => { let o = rng.below(dim); (o, rng.range(1, dim - o)) }
+            }
+        };
+        let (ox, cw) = inside(&mut rng, w);
+        let (oy, ch) = inside(&mut rng, h);
+        let (mut ox2, cw2) = inside(&mut rng, cw);
+        let (mut oy2, ch2) = inside(&mut rng, ch);
+        if rng.chance(1, 10) {
+            if rng.chance(1, 2) { ox2 += cw - (ox2 + cw2) + 1 } else { oy2 += ch - (oy2 + ch2) + 1 }
+        }
+        out.push(format!("D {kind} {len} {pitch} {w} {h} {color} {ox} {oy} {cw} {ch} {ox2} {oy2} {cw2} {ch2}"));
     }
     out
 }
@@ -282,6 +309,62 @@ pub fn run(line: &str) -> Option<(String, Vec<String>)> {
                         }
                         Some((o.fmt(), oracle))
                     }
+                }
+            }
+        }
+        "D" => {
+            let shared = t[1] == "s";
+            let len = p_usize(t[2])?;
+            let pitch: usize = t[3].parse().ok()?;
+            let (w, h) = (p_u32(t[4])?, p_u32(t[5])?);
+            let color = *cols.get(p_usize(t[6])?)?;
+            let bpp = color.bytes_per_pixel() as usize;
+            let (ox, oy, cw, ch) = (p_u32(t[7])?, p_u32(t[8])?, p_u32(t[9])?, p_u32(t[10])?);
+            let (ox2, oy2, cw2, ch2) = (p_u32(t[11])?, p_u32(t[12])?, p_u32(t[13])?, p_u32(t[14])?);
+            let mut buf = vec![0u8; len];
+            let base = buf.as_ptr() as usize;
+            // the generator only builds addressable parents with a non-empty first crop inside them
+            let inside2 = ox2 as u64 + cw2 as u64 <= cw as u64 && oy2 as u64 + ch2 as u64 <= ch as u64;
+            let res = std::panic::catch_unwind(std::panic::AssertUnwindSafe(|| {
+                if shared {
+                    ImageView::new_with(&buf, pitch, Size::new(w, h), color).map(|v| {
+                        observe_shared(v.cropped(Offset::new(ox, oy), Size::new(cw, ch)).cropped(Offset::new(ox2, oy2), Size::new(cw2, ch2)), base)
+                    })
+                } else {
+                    ImageViewMut::new_with(&mut buf, pitch, Size::new(w, h), color).map(|v| {
+                        observe_mut(v.cropped(Offset::new(ox, oy), Size::new(cw, ch)).cropped(Offset::new(ox2, oy2), Size::new(cw2, ch2)), base)
+                    })
+                }
+            }));
+            match res {
+                Err(_) => {
+                    if inside2 {
+                        oracle.push("crop chain: panic for a rectangle inside the first crop".into());
+                    }
+                    Some(("panic".into(), oracle))
+                }
+                Ok(None) => {
+                    oracle.push("crop chain: new_with returned None for addressable geometry".into());
+                    Some(("none".into(), oracle))
+                }
+                Ok(Some(o)) => {
+                    if !inside2 {
+                        oracle.push("crop chain: accepted a rectangle outside the first crop".into());
+                    } else {
+                        check_rows(&o, bpp, len, &mut oracle);
+                        // row j of the second crop is the ORIGINAL buffer's row oy+oy2+j from byte (ox+ox2)*bpp
+                        for (j, r) in o.rows.iter().enumerate() {
+                            let exp = (oy as usize + oy2 as usize + j) * pitch + (ox as usize + ox2 as usize) * bpp;
+                            if r.0 != exp || r.1 != cw2 as usize * bpp {
+                                oracle.push(format!("crop chain: row {j} at {}+{} expected {}+{}", r.0, r.1, exp, cw2 as usize * bpp));
+                                break;
+                            }
+                        }
+                        if o.rows.len() != ch2 as usize || o.w != cw2 || o.h != ch2 {
+                            oracle.push("crop chain: wrong size / row count".into());
+                        }
+                    }
+                    Some((o.fmt(), oracle))
                 }
             }
         }
